@@ -1,3 +1,6 @@
+//go:build verif
+// +build verif
+
 // Package cafsh has helpers shared by the cafs drivers (C01..C03): content sources with controlled
 // chunking, sinks, the Write-progress monitor, and leaf arithmetic.
 package cafsh
